@@ -93,7 +93,8 @@ def build_table(spec, origin=None, cls=None):
         df,
         name=spec["name"],
         destinations=set(spec["dests"]),
-        units=[c["unit"] for c in spec["cols"]],
+        # "no_units": the units are left to the defaults of the column types
+        **({} if spec.get("no_units") else {"units": [c["unit"] for c in spec["cols"]]}),
         transposed=bool(spec.get("transposed", False)),
         **({"strict_types": False} if spec.get("strict") is False else {}),
         **kw,
